@@ -4,6 +4,7 @@ mod cli;
 mod concretise;
 mod facets;
 mod lexer;
+mod multiref;
 mod mutate;
 mod run;
 mod sink;
